@@ -5,7 +5,7 @@ longer caught.  usage: FSIM_REPO=<worktree> tools/seeded_fast.py [name ...]"""
 import glob, json, os, subprocess, sys, time
 V = os.path.dirname(os.path.dirname(os.path.abspath(__file__)))
 REPO = os.environ.get("FSIM_REPO")
-BASES = {"C08c": "d451ffb"}
+BASES = {"C08c": "d451ffb", "C04l": "47f4ce1"}
 
 
 def sh(cmd, **kw):
